@@ -53,7 +53,16 @@ def run(ck, prog, ctx):
             for m in adaptor_chain(b, pvn, t.args[0]):
                 if re.search(r"^(all_)?(common|union)_ancestor(s|_ids)$", m):
                     cands.add(m)
-        ck.ob("FIELD", name + "/candidates", cands == {"all_common_ancestors"} or cands == {"all_common_ancestor_ids"}, "%s minimises over %s (expected the inclusive common ancestors)" % (name, sorted(cands) or "?"), where=b.where())
+        priv_src = None
+        if not cands:
+            for fb, bi, t in reds:
+                for a in pvn.of_operand(b, t.args[0]):
+                    if a[0] == "call" and a[3] == b.id and a[1] in prog.bodies and not (prog.bodies[a[1]].exported or prog.bodies[a[1]].reachable):
+                        priv_src = prog.bodies[a[1]].short
+        if not cands and priv_src:
+            ck.undecided("FIELD", name + "/candidates", "%s minimises over what the crate-private %s yields: which ancestor set that is, is not read by this rule" % (name, priv_src), where=b.where())
+        else:
+            ck.ob("FIELD", name + "/candidates", cands == {"all_common_ancestors"} or cands == {"all_common_ancestor_ids"}, "%s minimises over %s (expected the inclusive common ancestors)" % (name, sorted(cands) or "?"), where=b.where())
         # results
         sites = []
         for bi in sorted(b.reach):
@@ -148,17 +157,28 @@ def run(ck, prog, ctx):
                                     fl = field_names(pv.of_operand(da, gt.args[0]), "::HpoTerm")
                                     kinds.add("direct" if "parents" in fl and "all_parents" not in fl else "closure")
                     consts[v] = kinds
-        if consts.get(0) == {"identity"} and 1 not in consts and da.natural_loops():
-            # an iterative (level by level) search has no constant `Some(1)` base case: its counter starts somewhere and is returned from the loop
-            ck.undecided("FIELD", "distance_to_ancestor/base", "distance_to_ancestor is iterative (its step counter is returned from a loop): the base cases of the recursive form do not apply", where=da.where())
-        else:
-            ck.ob("FIELD", "distance_to_ancestor/base", consts.get(0) == {"identity"} and consts.get(1) == {"direct"}, "distance_to_ancestor returns %s" % {k: sorted(v) for k, v in sorted(consts.items())}, where=da.where())
         incs = []
         for fb in prog.family(da):
             for _, st in fb.stmts():
                 if st.k == "assign" and st.rv["k"] == "bin" and st.rv["op"].startswith("Add") and st.rv["r"].kind == "const":
                     incs.append(st.rv["r"].int_value())
-        ck.ob("FIELD", "distance_to_ancestor/step", incs == [1], "each recursion step adds %s (expected 1)" % incs, where=da.where())
+        deleg = None
+        if not consts and not incs:
+            for a in pvn.of_return(da):
+                hb = prog.bodies.get(a[2]) if a[0] == "call" and a[3] == da.id else None
+                hb = hb or (prog.bodies.get(a[1]) if a[0] == "call" and a[3] == da.id else None)
+                if hb is not None and hb.kind in ("Fn", "AssocFn") and not hb.exported and not hb.reachable and not hb.impl_trait and hb.id != da.id:
+                    deleg = hb
+        if deleg is not None:
+            ck.undecided("FIELD", "distance_to_ancestor/base", "distance_to_ancestor takes its result from the private helper %s (no base case or step of its own): the recursive form's rules do not apply" % deleg.short, where=da.where())
+            ck.undecided("FIELD", "distance_to_ancestor/step", "see distance_to_ancestor/base", where=da.where())
+        elif consts.get(0) == {"identity"} and 1 not in consts and da.natural_loops():
+            # an iterative (level by level) search has no constant `Some(1)` base case: its counter starts somewhere and is returned from the loop
+            ck.undecided("FIELD", "distance_to_ancestor/base", "distance_to_ancestor is iterative (its step counter is returned from a loop): the base cases of the recursive form do not apply", where=da.where())
+        else:
+            ck.ob("FIELD", "distance_to_ancestor/base", consts.get(0) == {"identity"} and consts.get(1) == {"direct"}, "distance_to_ancestor returns %s" % {k: sorted(v) for k, v in sorted(consts.items())}, where=da.where())
+        if deleg is None:
+          ck.ob("FIELD", "distance_to_ancestor/step", incs == [1], "each recursion step adds %s (expected 1)" % incs, where=da.where())
     pa = prog.body(T + "path_to_ancestor")
     if pa is not None:
         ins = [(fb, t) for fb in prog.family(pa) for _, t in fb.calls() if t.callee.method == "insert" and "Vec" in (t.callee.def_args or "")]
